@@ -310,7 +310,11 @@ func (rw *rewriter) globalPass() {
 					id.Name = "simrt"
 					x.Sel.Name = "Yield"
 					rw.used = true
-				case "GOMAXPROCS", "NumGoroutine", "Goexit", "LockOSThread":
+				case "GOMAXPROCS":
+				id.Name = "simrt"
+				rw.used = true
+				rep.Counts["runtime.GOMAXPROCS"]++
+			case "NumGoroutine", "Goexit", "LockOSThread":
 					rw.errorf(x.Pos(), "runtime.%s is not modelled by the simulator", x.Sel.Name)
 				}
 			case "context":
